@@ -1,15 +1,19 @@
 import S3V.Model.Xml
+import S3V.Spec.Xml
 /-!
 # XML meaning of character data, on the reader's event level (C13)
 
 Between two tags, XML 1.0 character data may be written as any sequence of text with references (§2.4, §4.1),
 CDATA sections (§2.7), comments (§2.5) and processing instructions (§2.6). It *denotes* one string: the
 concatenation of the expanded text pieces and the CDATA contents; comments and PIs are transparent (they are not
-part of the document's character data, §2.4).
+part of the document's character data, §2.4). Line ends are normalised before anything else (§2.11): in the literal
+text of a piece and in a CDATA section every CR LF pair and every CR not followed by LF stands for one LF
+(`XmlSpec.normEol`, the function the judge's `XmlSpec.charData` applies); a reference (`&#13;`) is resolved afterwards
+and keeps its CR. (A CR at the end of a piece is never followed by a literal LF in the document: the next byte is the
+`<` of the markup that ends the piece; so normalising piece by piece is normalising the document.)
 
 `charsMeaning` states this on the tokeniser's events (`Xml.QEv`). How the references of one text piece expand is
-`Xml.unescape` here (the five predefined entities and character references); its agreement with §4.1 / §4.6 — and
-the line-end handling of §2.11, which the reader does not do (open finding `xml-eol-not-normalised`) — is judged
+`Xml.unescape` here (the five predefined entities and character references); its agreement with §4.1 / §4.6 is judged
 separately, on every case of the correspondence run, by the independent `XmlSpec.charData`.
 (The tree-level, fully independent version used by the driver's judge is `XmlSpec.meaning` in `Spec/Xml.lean`.)
 -/
@@ -22,11 +26,11 @@ def charsMeaning : List QEv → Option Bytes
   | [] => some []
   | .text raw :: r =>
     if utf8Valid raw then
-      match unescape raw, charsMeaning r with
+      match unescape (normEol raw), charsMeaning r with
       | some a, some b => some (a ++ b)
       | _, _ => none
     else none
-  | .cdata c :: r => if utf8Valid c then (charsMeaning r).map (c ++ ·) else none
+  | .cdata c :: r => if utf8Valid c then (charsMeaning r).map (normEol c ++ ·) else none
   | .comment :: r => charsMeaning r
   | .pi :: r => charsMeaning r
   | _ => none
